@@ -371,6 +371,23 @@ _S3 = {
            "gen_init_subclass_spec, gen_init_subclass_table); the scalar-transformer guards of Coupling / MaskedAutoregressive.__init__ and TriangularAffine.__init__ are regenerated too (C01 gen_coupling_init_spec, "
            "gen_maf_init_spec; C11 gen_tri_ctor_accepts_iff). The search oracle has a NumPy-referenced constructor grid over equal and different ranks.",
 }
+_S3["C12"] = ("SESSION 3: the TRAVERSAL itself — unwrap, AbstractUnwrappable.recursive_unwrap (the nested vectorized_unwrap / v_unwrap, the reversed(_dummy.shape) filter_vmap loop, "
+              "tree_flatten_one_level / tree_unflatten(unwrap(flat))), non_trainable and the eqx.partition(..., is_leaf=NonTrainable) statements of fit_to_data / fit_to_variational_target / "
+              "get_ravelled_pytree_constructor — is regenerated on every run (py2meth.py, sheet targets_unwrap.py -> Gen/UnwrapGen.lean over Model/UnwrapWorld.lean) and proved equal to the tree model for every tree, "
+              "every per-class body and any number of batch levels (gen_traversal_eq_model), with the main theorems restated on the generated definitions (gen_traversal_idempotent, gen_traversal_each_once, "
+              "gen_traversal_vmapped, gen_partition_frozen_not_in_params, gen_frozen_bit_identical).")
+_S3["C10"] = ("SESSION 3: _adapt_interval_to_include_root, _bisection_search, _autoregressive_bisection_search and AutoregressiveBisectionInverter.__call__ / __check_init__ are regenerated as WHOLE functions "
+              "(py2meth.py, sheet targets_bisectgen.py -> Gen/BisectionGen.lean; lax.while_loop = fuelled iteration, lax.scan = fold: Model/BisectWorld.lean) and proved equal to the hand model for every scalar type "
+              "(gen_adapt_eq_model, gen_bisection_search_eq_model, gen_autoregressive_eq_model, gen_inverter_call_eq_model, gen_inverter_check_iff); the result theorems are restated on the generated functions "
+              "(gen_bisect_result, gen_search_result, gen_autoregressive_error_bound) and the generated functions run beside the model at Rat / Float, bit for bit.")
+_S3["C04"] = ("SESSION 3 (triangular_spline_flow): composition of layers that supply both layer facts (chain_layer_facts), elementwise layers (elementwise_layer: LeakyTanh of any max_val > 0, vmapped splines at every raw "
+              "parameter row), TriangularAffine (constant Jacobian, also on the regenerated methods; weight normalisation keeps the triangle and the non-zero diagonal), the linear condition and the default permutation "
+              "give both layer facts for every layer of triangular_spline_flow in both orientations at every condition; the flow is normalised and its sampler has law exp(log_prob) for any number of layers and both "
+              "values of invert (flowNd_tri_spline_normalised, flowNd_tri_spline_sample_law) — so all five premade architectures now have d-dimensional theorems with their default conditioners.")
+_S3["C18"] = ("SESSION 3: spline-transformer Coupling (both directions) and MaskedAutoregressive (forward) and MultivariateNormal are no longer oracle-only: _real_to_increasing_on_interval, the derivative lambda and "
+              "TriangularAffine's _to_triangular / ..._and_log_det are generated as expression arrays (Gen/SplineAst.lean, Gen/TriAst.lean) and coupling_spline_grad_finite, maf_spline_grad_finite, spline_params_grad_finite, "
+              "mvn_grad_finite prove finite values and finite adjoints with respect to input, condition and every weight / bias / leaf for every parameter value and input, with no finiteness-of-value hypothesis. "
+              "Still oracle-only: the MAF inverse scan, BNAF, whole factories.")
 for _k, _v in _S3.items():
     _t = CLAIMED[_k]
     CLAIMED[_k] = (_t[0], _t[1] + " " + _v, _t[2], _t[3])
